@@ -97,8 +97,9 @@ def scenario(sh: Shard, seed, idx):
                 if not any(x["ident"] == d.identifier and x["name"] == d.name and x["sock"].addr == (d.ipaddress, d.port) for x in resp):
                     sh.violation("C15:threaded:descriptor-not-intact", f"descriptor ({d.identifier!r}, {d.name!r}, {d.ipaddress}) matches no responder", wit)
             s.sleep(1.5)
-            if not loc._socket._socket is None and not getattr(loc._socket._socket, "closed", True):
-                sh.violation("C15:threaded:socket-open", "discovery socket still open after complete() returned", wit)
+            left_open = [x.addr for x in net.created if getattr(x, "implicit", False) and not x.closed]
+            if left_open or (not loc._socket._socket is None and not getattr(loc._socket._socket, "closed", True)):
+                sh.violation("C15:threaded:socket-open", f"discovery socket still open after complete() returned ({left_open})", wit)
             alive = [t.name for t in s.threads if t is not s.main and not t.done]
             if alive:
                 sh.violation("C15:threaded:threads-alive", f"threads still alive 1.5 s after complete() returned: {alive}", wit)
@@ -122,6 +123,8 @@ def scenario(sh: Shard, seed, idx):
                 sh.violation("C15:threaded:descriptor-not-intact", f"descriptor ({d.identifier!r}, {d.name!r}, {d.ipaddress}) matches no responder", wit)
         if dur > T_MAX + slack:
             sh.violation("C15:threaded:over-timeout", f"blocking discovery took {dur:.2f}s (timeout {T_MAX}s)", wit)
+        if dur > 1.5 and not any(rec["verb"] == "HELLO" and rec["data"] == b"<HELLO>1</HELLO>" for rec in net.log):
+            sh.violation("C15:threaded:no-hello-sent", f"blocking discovery ran {dur:.2f}s without a single hello leaving its socket", wit)
         if target is not None and target["ident"] in first_arrival and first_arrival[target["ident"]] - t0 < T_MAX - slack:
             if dur > first_arrival[target["ident"]] - t0 + slack:
                 sh.violation("C15:threaded:late-return-specific", f"requested spa answered at +{first_arrival[target['ident']] - t0:.2f}s, discovery returned at +{dur:.2f}s", wit)
@@ -137,8 +140,9 @@ def scenario(sh: Shard, seed, idx):
             sh.violation("C15:threaded:early-return", f"blocking discovery returned at +{dur:.2f}s with nothing listed", wit)
         # clean-up
         s.sleep(1.5)
-        if not loc._socket._socket is None and not getattr(loc._socket._socket, "closed", True):
-            sh.violation("C15:threaded:socket-open", "discovery socket still open after discovery returned", wit)
+        left_open = [x.addr for x in net.created if getattr(x, "implicit", False) and not x.closed]
+        if left_open or (not loc._socket._socket is None and not getattr(loc._socket._socket, "closed", True)):
+            sh.violation("C15:threaded:socket-open", f"discovery socket still open after discovery returned ({left_open})", wit)
         alive = [t.name for t in s.threads if t is not s.main and not t.done]
         if alive:
             sh.violation("C15:threaded:threads-alive", f"threads still alive 1.5 s after discovery returned: {alive}", wit)
